@@ -399,16 +399,29 @@ def reader_size_limit(prog, rep, rule, mod):
             continue
         lhs, rhs = e[2], e[3]
         kval = _ceval(rhs)
+        op_ = e[1]
+        if kval is None and _ceval(lhs) is not None:
+            # K OP len(x)  ->  len(x) OP' K
+            lhs, rhs, kval = rhs, lhs, _ceval(lhs)
+            op_ = {"Gt": "Lt", "Ge": "Le", "Lt": "Gt", "Le": "Ge"}[op_]
         if lhs[0] != "len" or kval is None:
             continue
-        # does one side of the switch build PacketReadError::Compression right away?
-        leads = False
-        for s_ in b.succ[bi]:
-            for st in b.blocks[s_]["st"]:
-                if st["k"] == "assign" and st["r"]["k"] == "agg" and st["r"].get("variant") == "Compression":
-                    leads = True
-        if leads:
-            guards.append((bi, e[1], lhs[1], kval))
+        # which raw switch value leads straight to Err(Compression)?
+        def builds_error(bb):
+            return any(st["k"] == "assign" and st["r"]["k"] == "agg" and st["r"].get("variant") == "Compression" for st in b.blocks[bb]["st"])
+        err_raw = None
+        listed = set()
+        for v_, tb in t["targets"]:
+            listed.add(bool(v_))
+            if builds_error(tb):
+                err_raw = bool(v_)
+        if err_raw is None and builds_error(t["otherwise"]) and len(listed) == 1:
+            err_raw = not next(iter(listed))
+        if err_raw is None:
+            continue
+        holds_on_error = err_raw if not neg else (not err_raw)
+        eff = op_ if holds_on_error else {"Gt": "Le", "Ge": "Lt", "Lt": "Ge", "Le": "Gt"}[op_]
+        guards.append((bi, eff, lhs[1], kval))
     rep.floor(rule, len(guards), 1, "%s: size guard returning Err(Compression)" % tag)
     for bi, op, what, k in guards:
         limit = k if op == "Gt" else k - 1 if op == "Ge" else None
